@@ -151,12 +151,14 @@ def run(ctx):
         if len(ent) == 1 and ent[0]["vals"][1] is not None and ent[0]["vals"][1][0] == "slice":
             sid = ent[0]["vals"][1][1]
             sl = [s for s in aca.slices if s["sid"] == sid]
-            if sl and sl[0]["kind"] == "rangefrom" and sl[0]["root"].endswith(".labels") and len(sl[0]["off"].t) == 1 and sl[0]["off"].t[0][0].startswith("en"):
+            if sl and sl[0]["kind"] == "rangefrom" and sl[0]["root"].endswith(".labels") and len(sl[0]["off"].t) == 1 and \
+                    sl[0]["off"].c == 0 and sl[0]["off"].t[0][1] == 1 and sl[0]["off"].t[0][0].startswith(("en", "it")):
+                # the loop index: the counter of enumerate() or the item of a 0..len range
                 keyok = True
         report.count()
         if okr and keyok:
             report.nontriv("record-before-write")
-            report.sample({"rule": "R3", "recorded": "writer position at the start of the label", "key": "&self.labels[i..] with i the enumerate index"})
+            report.sample({"rule": "R3", "recorded": "writer position at the start of the label", "key": "&self.labels[i..] with i the loop index"})
         else:
             viol(report, "C07-R3", "Name::compress_append", "record-before-write", "the table entry for a suffix is not (position before the label's "
                  "first byte, suffix starting at that label): %s%s" % (why, "" if keyok else "; key is not &self.labels[i..]"),
